@@ -11,6 +11,7 @@ import (
 	"go/types"
 	"os"
 	"path/filepath"
+	"regexp"
 	"sort"
 	"strconv"
 	"strings"
@@ -24,6 +25,11 @@ type LoopC struct {
 	Dec      string
 	Modifies []string
 	Finger   string // expected induction/range variable name (structural fingerprint)
+	// Names: source names of the loop-carried variables in positional order. A clause written with positional
+	// names (phi1, l2phi1, ...) falls back to the source name when the loop no longer has that many loop-carried
+	// variables (the loop was restructured): the clause is then still evaluated — and normally fails — instead
+	// of leaving the check undecided. A pure rename keeps the positional names valid.
+	Names []string
 }
 type FnContract struct {
 	Key         string // "<pkgpath>.<name>"
@@ -53,6 +59,8 @@ type FnContract struct {
 	Split       string              // "<expr> <lo>..<hi>": ensures obligations are split by the value of expr
 	NoSafety    bool                // implicit runtime-panic obligations are assumed (proved under another property)
 }
+
+var posNameRe = regexp.MustCompile(`^(?:l(\d+))?phi(\d+)$`)
 
 var clauseKW = map[string]bool{"requires": true, "ensures": true, "panics": true, "onpanic": true, "assigns": true,
 	"modular": true, "trusted": true, "loop": true, "property": true, "case": true, "pure": true, "harness": true, "nosafety": true, "maypanic": true, "split": true, "at": true, "ops": true}
@@ -244,6 +252,9 @@ func (w *World) parseContractFile(pkgPath, file string) {
 				lastClause = nil
 			case "var":
 				lc.Finger = body
+				lastClause = nil
+			case "names":
+				lc.Names = strings.Fields(strings.ReplaceAll(body, ",", " "))
 				lastClause = nil
 			default:
 				fail("%s:%d: unknown loop clause %q", file, ln+1, fields[2])
@@ -815,6 +826,30 @@ func (e *CEnv) eval(ex ast.Expr) TV {
 		if pp := x.w.ppkgs[e.pkg]; pp != nil && pp.Types != nil {
 			if tv, ok := e.pkgObject(pp.Types, n.Name); ok {
 				return tv
+			}
+		}
+		// positional loop variable that no longer exists: fall back to the source name recorded for it
+		if m := posNameRe.FindStringSubmatch(n.Name); m != nil && e.names != nil && x.cur != nil {
+			k, _ := strconv.Atoi(m[2])
+			try := func(lc *LoopC) (TV, bool) {
+				if lc != nil && k >= 1 && k <= len(lc.Names) {
+					if v, t, ok := e.names(lc.Names[k-1], e.useOld); ok {
+						return TV{v, t}, true
+					}
+				}
+				return TV{}, false
+			}
+			if m[1] != "" {
+				ln, _ := strconv.Atoi(m[1])
+				if tv, ok := try(x.cur.c.Loops[ln]); ok {
+					return tv
+				}
+			} else {
+				for _, lc := range x.cur.c.Loops {
+					if tv, ok := try(lc); ok {
+						return tv
+					}
+				}
 			}
 		}
 		fail("contract: unknown identifier %q", n.Name)
